@@ -11,6 +11,7 @@ func init() {
 	vHarnesses["H_C04_catch"] = H_C04_catch
 	vHarnesses["H_C09_history"] = H_C09_history
 	vHarnesses["H_C11_allsol"] = H_C11_allsol
+	vHarnesses["H_C20_load"] = H_C20_load
 	vHarnesses["H_C17_dcg"] = H_C17_dcg
 	vHarnesses["H_C16_rel"] = H_C16_rel
 	vHarnesses["H_C18_ops"] = H_C18_ops
@@ -125,4 +126,10 @@ func H_C16_rel(inst int) {
 func H_C17_dcg(inst int) {
 	i := newFull()
 	engine.VH_C17(&i.VM, inst)
+}
+
+// H_C20_load: program texts assembled from items (orders, declarations, one fault), on top of an earlier load.
+func H_C20_load(inst int) {
+	i := newFull()
+	engine.VH_C20(&i.VM, inst)
 }
